@@ -105,7 +105,7 @@ type Ctx struct {
 	excl     map[string]bool
 	replays  map[string]func(json.RawMessage) (*Fail, error)
 	start    time.Time
-	nsample  int64
+	nsamples map[string]int64
 	last     *Failure
 	replayMode bool
 	inReplay   bool
@@ -220,10 +220,13 @@ func (c *Ctx) Record(check string, o *Obs, caseJSON func() string) {
 		return
 	}
 	c.distinct[hk] = struct{}{}
-	c.nsample++
-	n := c.nsample
-	// samples at fixed ordinals of the distinct non-trivial stream
-	if n <= 3 || n == 10 || n == 100 || n == 1000 || n == 10000 || n == 100000 {
+	if c.nsamples == nil {
+		c.nsamples = map[string]int64{}
+	}
+	c.nsamples[check]++
+	n := c.nsamples[check]
+	// samples at fixed ordinals of each sub-check's distinct non-trivial stream
+	if n <= 2 || n == 10 || n == 100 || n == 1000 || n == 10000 {
 		note := o.Note
 		if note == "" {
 			note = key
